@@ -185,6 +185,14 @@ PROGRAM_CORPUS = [
     (2, [("set", 0, 1)], [[("set", 1, 2)], [("set", 2, 3)], [("getitem", 0)]]),
     (2, [("set", 0, 1), ("set", 1, 2)], [[("getitem", 0), ("del", 1)], [("getitem", 1), ("set", 2, 5)]]),
 ]
+# the full product "one call that looks a key up" x "one call that removes that key", two threads, one call each: small enough
+# for the bounded DFS to cover EVERY line-granularity interleaving (a check-then-act window inside one method is found)
+for _reader in (("get", 0, 99), ("getitem", 0), ("contains", 0), ("setdefault", 0, 7), ("set", 0, 8)):
+    for _cap, _setup, _remover in ((2, [("set", 0, 1), ("set", 1, 2)], ("del", 0)),
+                                   (2, [("set", 0, 1), ("set", 1, 2)], ("clear",)),
+                                   (1, [("set", 0, 1)], ("set", 1, 5)),
+                                   (2, [("set", 0, 1), ("set", 1, 2)], ("set", 2, 5))):
+        PROGRAM_CORPUS.append((_cap, _setup, [[_reader], [_remover]]))
 
 
 def gen_program(rng):
